@@ -30,6 +30,7 @@ use vcore::{Cfg, Check, Cx, Finding, Meta, SUB_SETUP, Tier, Value, Violation, js
 
 mod genr;
 mod hist;
+mod twins;
 
 use c04p::{probe, ty};
 use c04t1 as tab1;
@@ -306,12 +307,15 @@ impl Check for C04 {
         "C04"
     }
     fn units(&self, cfg: &Cfg) -> usize {
-        FAMS.iter().map(|f| f.units(cfg.tier)).sum()
+        FAMS.iter().map(|f| f.units(cfg.tier)).sum::<usize>() + 1
     }
 
     fn run_unit(&self, unit: usize, cx: &mut Cx) {
         let tier = cx.cfg.tier;
         let global_unit = unit;
+        if unit == FAMS.iter().map(|f| f.units(tier)).sum::<usize>() {
+            return twins::run(cx);
+        }
         let (fam, unit) = locate(tier, global_unit);
         if fam == Fam::History {
             return hist::run_unit(unit, cx);
@@ -481,6 +485,9 @@ impl Check for C04 {
     fn describe(&self, cfg: &Cfg, unit: usize, sub: u64) -> Value {
         if sub == SUB_SETUP {
             return json!({"kind": "setup", "note": "compiling the generated package"});
+        }
+        if unit == FAMS.iter().map(|f| f.units(cfg.tier)).sum::<usize>() {
+            return twins::describe(sub as usize);
         }
         let (fam, unit) = locate(cfg.tier, unit);
         if fam == Fam::History {
